@@ -31,3 +31,9 @@ package config
 //@   props C18
 //@   pure
 //@ end
+
+//@ func GetRunningConfig
+//@   props C19
+//@   pure
+//@   ensures result != nil
+//@ end
